@@ -39,6 +39,19 @@ pub fn stats_diff(st: &crate::handles::Stats, d: &Decoded) -> Option<(&'static s
     pairs.into_iter().find(|(_, g, w)| g != w)
 }
 
+/// does a decoder finding of class `class` concern a property whose decoder scope is `scope`?
+pub fn class_in_scope(scope: &str, class: &str) -> bool {
+    let contents = ["contents", "bad-header", "bad-signature", "type-signature", "files-missing", "bucket-count-changed"];
+    let storage = ["slot-walk", "slot-size", "free-not-slot", "free-format", "free-cycle", "live-and-free", "record-exceeds-slot", "orphan-slot", "free-wrong-class", "free-double", "files-missing"];
+    let not_fit = ["bitmap-missing", "count-mismatch", "wrong-bucket", "duplicate-key", "chain-cycle", "bucket-count-changed", "type-signature", "orphan-slot", "free-wrong-class", "free-double"];
+    match scope {
+        "contents" => contents.contains(&class),
+        "storage" => storage.contains(&class),
+        "fit" => !not_fit.contains(&class),
+        _ => true,
+    }
+}
+
 fn refusal_in_step() -> Option<String> {
     kernel::with(|k| {
         k.step_events
@@ -71,20 +84,24 @@ impl<'a> World<'a> {
             }
         };
         self.stats.decodes += 1;
+        let scope = self.ep.checks.decoder_scope.clone();
         let d = match decoder::decode(&imgs[0], &imgs[1], &imgs[2]) {
             Ok(d) => d,
             Err(b) => {
+                if !class_in_scope(&scope, b.class) {
+                    return Err(Stop::Inconclusive(format!("out-of-scope: decoder finding '{}' does not concern this property ({})", b.class, b.detail)));
+                }
                 return Err(viol(class, b.class.to_string(), self.step_no, format!("map '{}' at {when}: {}", self.maps[m].spec.name, b.detail)));
             }
         };
         if let Some(b) = d.accounting.first() {
-            if self.ep.checks.accounting {
+            if self.ep.checks.accounting && class_in_scope(&scope, b.class) {
                 return Err(viol(class, b.class.to_string(), self.step_no, format!("map '{}' at {when}: {}", self.maps[m].spec.name, b.detail)));
             }
             self.stats.probe("accounting-inconsistency-seen-not-this-property");
         }
         let kt = self.maps[m].spec.kt;
-        if d.sig2 != kt.signature() {
+        if d.sig2 != kt.signature() && class_in_scope(&scope, "type-signature") {
             return Err(viol(class, "type-signature".into(), self.step_no, format!("map '{}' at {when}: type signature {:02x?}, documented {:02x?}", self.maps[m].spec.name, d.sig2, kt.signature())));
         }
         {
@@ -116,7 +133,7 @@ impl<'a> World<'a> {
         }
         match self.maps[m].buckets {
             None => self.maps[m].buckets = Some(d.buckets),
-            Some(b) if b != d.buckets => {
+            Some(b) if b != d.buckets && class_in_scope(&scope, "bucket-count-changed") => {
                 return Err(viol(class, "bucket-count-changed".into(), self.step_no, format!("map '{}': stored bucket count changed {} -> {}", self.maps[m].spec.name, b, d.buckets)));
             }
             _ => {}
@@ -297,9 +314,17 @@ impl<'a> World<'a> {
                 }
             }
             // (1) kill image = what the kernel has accepted
-            let d = self.decode_and_compare(m, "crash")?;
-            if d.count == 0 && self.maps[m].model.is_empty() {
-                self.stats.probe("crash-point-on-empty-map");
+            let mut force_reopen = false;
+            match self.decode_and_compare(m, "crash") {
+                Ok(d) => {
+                    if d.count == 0 && self.maps[m].model.is_empty() {
+                        self.stats.probe("crash-point-on-empty-map");
+                    }
+                }
+                // a structural oddity that is not this property's: the real crate decides by
+                // opening the copy
+                Err(Stop::Inconclusive(s)) if s.starts_with("out-of-scope:") => force_reopen = true,
+                Err(e) => return Err(e),
             }
             // (2) sync variants: durable == written and the sync request was really issued
             if self.ep.checks.sync_trace && name != "flush" {
@@ -330,7 +355,7 @@ impl<'a> World<'a> {
             }
             // (3) the real crate opens the image and passes the audit
             let every = self.ep.checks.crash_reopen_every;
-            if every > 0 && self.stats.crash_points % every as u64 == 0 {
+            if force_reopen || (every > 0 && self.stats.crash_points % every as u64 == 0) {
                 self.crash_reopen(m)?;
             }
         }
@@ -730,7 +755,10 @@ pub fn run_once_until(ep: &Episode, env: &Env, dirbase: &'static str, only_updat
                         let r = (|| {
                             let fr = w.call("flush", |_| hd.flush())?;
                             w.ok("flush", fr)?;
-                            w.decode_and_compare(m, "flushed-snapshot").map(|_| ())
+                            match w.decode_and_compare(m, "flushed-snapshot") {
+                                Err(Stop::Inconclusive(s)) if s.starts_with("out-of-scope:") => Ok(()),
+                                other => other.map(|_| ()),
+                            }
                         })();
                         w.handles[slot] = Some((mm, hd));
                         r?;
